@@ -40,8 +40,10 @@ RULE = ('handle level (hasync / hsync): one step = one poll_next of a named Asyn
         'request level (async / sync): k concurrent format_value / format_values / format_messages futures of chosen fallback depths through '
         'Bundles::new and Localization::bundles, polled in a scripted order with own wakers, then a fair drain; bounded-exhaustive over all '
         'schedules to completion (quick: k<=2 requests x script<=4 x <=2 spurious; thorough: k<=2 x script<=5 x <=2, k=3 x script<=3 x <=2, '
-        'k=3 x script<=4 x <=1), every 5th/11th also cut at a random prefix and finished by the drain, all short sync request sequences, '
-        'random longer ones. non-trivial = a poll returned Pending or the run is synchronous; distinct = distinct implementation outputs')
+        'k=3 x script<=4 x <=1; requests include batches with an EMPTY key list), the same over keys whose message is present but formats '
+        'WITH a resolver error (missing variable / unknown reference; every API in every consumer position; quick k<=2 x script<=3, thorough '
+        'k<=2 x script<=4), every 5th/11th also cut at a random prefix and finished by the drain, all short sync request sequences (clean and '
+        'resolver-error keys), random longer ones mixing all of these. non-trivial = a poll returned Pending or the run is synchronous; distinct = distinct implementation outputs')
 
 END = 99  # a key that no bundle has: the request walks to the end of the source
 EMPTY = -1  # a batch request (format_values / format_messages) with an empty key list: needs no bundle at all
@@ -150,18 +152,33 @@ def schedules(script, goals, max_spurious, cap):
 APIS = [b'v', b'vs', b'ms']
 
 
-def consumer(i, goal, rng=None):
+ERR_KINDS = [b'e', b'g']  # message present, value formats WITH a resolver error: missing variable / unknown message reference
+
+
+def key(d, kind=None):
+    """clean key m<d>, or (e d) / (g d): present from bundle d on but formatting there reports a resolver error;
+    for the fallback walk such a key is FOUND in bundle d"""
+    return d if kind is None else [kind, d]
+
+
+def depth(k):
+    return k if isinstance(k, int) else k[1]
+
+
+def consumer(i, goal, rng=None, err=False, shift=0):
     if goal == EMPTY:
-        return [APIS[1 + i % 2]]
-    api = APIS[i % 3]
+        return [APIS[1 + (i + shift) % 2]]
+    api = APIS[(i + shift) % 3]
     if rng is not None:
         api = rng.choice(APIS)
+        kind = lambda: rng.choice(ERR_KINDS) if rng.random() < 0.35 else None
         if api != b'v' and rng.random() < 0.6:
-            extra = [rng.choice([0, goal, rng.randrange(0, 6), END]) for _ in range(rng.randint(1, 2))]
-            ds = extra + [goal]
+            extra = [key(rng.choice([0, goal, rng.randrange(0, 6), END]), kind()) for _ in range(rng.randint(1, 2))]
+            ds = extra + [key(goal, kind())]
             rng.shuffle(ds)
             return [api] + ds
-    return [api, goal]
+        return [api, key(goal, kind())]
+    return [api, key(goal, ERR_KINDS[i % 2] if err else None)]
 
 
 def mk_case(mode, via, consumers, script, sched):
@@ -170,10 +187,10 @@ def mk_case(mode, via, consumers, script, sched):
 
 
 def goal_of(cons):
-    return max(cons[1:]) if len(cons) > 1 else EMPTY
+    return max(depth(x) for x in cons[1:]) if len(cons) > 1 else EMPTY
 
 
-def exhaustive_async(k, lmax, spur, pick_via):
+def exhaustive_async(k, lmax, spur, pick_via, err=False, shift=0):
     cases = []
     for L in range(0, lmax + 1):
         for script in itertools.product('rp', repeat=L):
@@ -182,7 +199,7 @@ def exhaustive_async(k, lmax, spur, pick_via):
             for goals in itertools.product(gchoices, repeat=k):
                 for j, sched in enumerate(schedules(script, list(goals), spur, 10 ** 9)):
                     via = b'loc' if (j + L + k) % 4 == 0 else b'bundles'
-                    cons = [consumer(i, g) for i, g in enumerate(goals)]
+                    cons = [consumer(i, g, err=err, shift=shift) for i, g in enumerate(goals)]
                     cases.append(mk_case(b'async', via, cons, script, sched))
     return cases
 
@@ -387,6 +404,15 @@ def generate_requests(rng, tier):
         cases = exhaustive_async(k, lmax, spur, None)
         allc.append(cases)
         yield ('exhaustive-async-k%d-script%d-spurious%d' % (k, lmax, spur), cases)
+    # the same with keys whose message is present but formats WITH a resolver error (missing variable / unknown
+    # reference): found is found - the request must stop at that bundle; every API in every consumer position
+    eplan = [(1, 4, 2), (2, 3, 2)] if quick else [(1, 5, 2), (2, 4, 2)]
+    for (k, lmax, spur) in eplan:
+        cases = []
+        for shift in ((1, 2) if quick else (0, 1, 2)):
+            cases += exhaustive_async(k, lmax, spur, None, err=True, shift=shift)
+        allc.append(cases)
+        yield ('exhaustive-async-resolver-error-keys-k%d-script%d-spurious%d' % (k, lmax, spur), cases)
     # schedule prefixes: the fair drain has to finish the job from every intermediate state
     pref = []
     for cases in allc:
@@ -405,6 +431,10 @@ def generate_requests(rng, tier):
                 for via in (b'bundles', b'loc'):
                     cons = [consumer(i, g) for i, g in enumerate(goals)]
                     cases.append(mk_case(b'sync', via, cons, 'r' * m, []))
+                    if any(g != EMPTY for g in goals):
+                        for shift in (1, 2):
+                            cons = [consumer(i, g, err=True, shift=shift) for i, g in enumerate(goals)]
+                            cases.append(mk_case(b'sync', via, cons, 'r' * m, []))
     yield ('exhaustive-sync-requests', cases)
     # ---- random, longer ------------------------------------------------------------------------------
     n = 6000 if quick else 100000
@@ -454,7 +484,7 @@ def generate(rng, tier):
 
 def _bad(o):
     if isinstance(o, list):
-        if o and isinstance(o[0], bytes) and o[0] in (b'PANIC', b'CRASH', b'HARNESS-PARSE-ERROR', b'UNEXPECTED-TEXT', b'HARNESS-NO-CACHE-MODULE'):
+        if o and isinstance(o[0], bytes) and o[0] in (b'PANIC', b'CRASH', b'HARNESS-PARSE-ERROR', b'UNEXPECTED-TEXT', b'HARNESS-NO-CACHE-MODULE', b'HARNESS-SETUP'):
             return sexp.dumps(o)[:200]
         for x in o:
             r = _bad(x)
@@ -495,7 +525,7 @@ def oracle(case, out):
     mode = c[1]
     if mode in (b'hasync', b'hsync'):
         return oracle_handle(c, o)
-    reqs = [r[1:] for r in c[3]]
+    reqs = [[depth(x) for x in r[1:]] for r in c[3]]   # a key found with a resolver error is found: only its depth matters
     script = [s == b'r' for s in c[4]]
     m = sum(script)
     # bundles request c has to look at (none for a batch with an empty key list) ...
